@@ -73,12 +73,23 @@ def gen_xgrid(d, npts=None):
     return pts
 
 
-def gen_operator(d, theory_raw, real=False, max_targets=5, min_targets=1, allow_down=True):
+def gen_operator(d, theory_raw, real=False, max_targets=5, min_targets=1, allow_down=True, allow_dup=False, xgrid_max=4):
     walls = walls_of(theory_raw)
     lin_walls = [math.sqrt(w) for w in walls]
     nf0 = d.pick("op:nf0", [3, 4, 4, 5, 5, 6]) if not real else d.pick("op:nf0", [3, 4, 4, 5])
     # initial scale: anywhere (the path walks to the right patch by itself)
     mu0 = _r(d, "op:mu0", 1.3, 60.0, d.pick("op:mu0digits", [None, 2]))
+    mu0kind = d.weighted("op:mu0kind", [("free", 7), ("wall", 2), ("near", 1)])
+    if mu0kind != "free":
+        # the initial point exactly on (or one part in 1e9 beside) a matching scale
+        i0 = d.below("op:mu0wall", 2)
+        ms0 = [m[0] for m in theory_raw["heavy"]["masses"]]
+        ks0 = theory_raw["heavy"]["matching_ratios"]
+        mu0 = d.pick("op:mu0form", [ms0[i0] * ks0[i0], lin_walls[i0]])
+        if mu0kind == "near":
+            mu0 *= 1.0 + d.pick("op:mu0eps", [1e-9, -1e-9])
+        if d.chance("op:mu0nf", 0.7):
+            nf0 = d.pick("op:mu0side", [i0 + 3, i0 + 4])
     ntargets = d.between("op:ntargets", min_targets, max_targets)
     targets = []
     seen = set()
@@ -126,9 +137,12 @@ def gen_operator(d, theory_raw, real=False, max_targets=5, min_targets=1, allow_
         chain = _chain_targets(d, theory_raw, walls, lin_walls, nf0, real, max_targets)
         if len(chain) >= min_targets:
             targets = d.shuffle("op:chainorder", chain)
+    if allow_dup and targets and d.chance("op:dup", 0.08):
+        # a repeated evolution point is legal input (the runner walks the grid as given)
+        targets.insert(d.below("op:duppos", len(targets) + 1), list(d.pick("op:dupwhich", targets)))
     downward = any(nf < nf0 for _, nf in targets)
     method = d.pick("op:method", CHEAP_METHODS)
-    xgrid = gen_xgrid(d)
+    xgrid = gen_xgrid(d, d.pick("x:nbig", [5, 6, 7, 8])) if (xgrid_max > 4 and d.chance("x:big", 0.5)) else gen_xgrid(d)
     deg = d.pick("op:deg", [1, 2]) if len(xgrid) > 2 else 1
     return dict(
         init=[mu0, nf0],
